@@ -1259,6 +1259,32 @@ func main() {
 	for _, fd := range funcsOf(fset, filepath.Join(dir, "scriptcache.go")) {
 		bodyRows = append(bodyRows, bodyRow(fset, fd))
 	}
+	// construction: options, configuration, node selection, blocking nodes, kv.New -- statement by statement
+	var optRows []string
+	want := map[string]bool{"New": true, "WithCluster": true, "WithPass": true, "WithTLS": true, "getRedis": true,
+		"Config.NewRedis": true, "CreateBlockingNode": true, "clientBridge.Close": true, "clusterBridge.Close": true}
+	for _, fn := range []string{"redis.go", "config.go", "blockingnode.go"} {
+		for _, fd := range funcsOf(fset, filepath.Join(dir, fn)) {
+			name := fd.Name.Name
+			if rt := recvType(fd); rt != "" {
+				name = strings.TrimPrefix(rt, "*") + "." + name
+			}
+			if want[name] {
+				optRows = append(optRows, bodyRow(fset, fd))
+				delete(want, name)
+			}
+		}
+	}
+	for _, fd := range funcsOf(fset, kfile) {
+		if fd.Name.Name == "New" && fd.Recv == nil {
+			optRows = append(optRows, strings.Replace(bodyRow(fset, fd), cstr("New"), cstr("kv.New"), 1))
+		}
+	}
+	for name := range want {
+		optRows = append(optRows, "("+cstr(name)+", ["+cstr("<missing>")+"])")
+	}
+	fmt.Println("(* construction of wrapper instances, their go-redis nodes and blocking nodes *)")
+	emit("construction_table", "(string * list string)", optRows)
 	fmt.Println("(* how the go-redis client of an address is created: clientmanager.go, clustermanager.go *)")
 	emit("client_table", "clientrow", clientRows)
 	fmt.Println("(* scriptcache.go, statement by statement *)")
